@@ -1,5 +1,6 @@
 pub mod link;
 pub mod c01;
+pub mod jobs;
 pub mod c12;
 pub mod c15;
 pub mod c17;
